@@ -61,8 +61,10 @@ META = {
              'further guarded streams: id-forms (explicit ids / get arguments in the non-canonical type: text for an int key, int for a '
              'str key; a class with idType=str), explicit-connection (classes bound to connection A, every access with connection=B), '
              'inheritance (oracle only: V/Car/Truck family + ForeignKey to the root, default and explicit connection); '
-             'transactions (oracle only: read/empty transactions rolled back or committed on a cache on/off connection: the '
-             'transaction hands out its own instances, every access path of the main connection keeps returning the held ones); '
+             'non-default connections (oracle only: a transaction, rolled back or committed, and a second connection object on the '
+             'same database, cache on/off: get / byName / eager select / lazyColumns select / foreign key / join on THAT connection '
+             'hand out its own instances, one per row, never the default connection\'s; every access path of the default connection, '
+             'lazyColumns select included, keeps returning the held ones); '
              'distinct = distinct (cfg, history); non-trivial = the history has at least one cache hit on a held object, cull or gc'),
     'trusted': ['the reference semantics of the Python fragment the callers are written in (lean/SqlObjVerif/Model/PyGet.lean), the AST '
                 'translator vlib/extractors/pyget.py, and the interface instantiation stated in the header of Model/GetX.lean: one '
@@ -1064,7 +1066,11 @@ def tx_env(do_cache):
         return _tx_envs[do_cache]
     sqlo.setup()
     from sqlobject import SQLObject, StringCol, ForeignKey, MultipleJoin
-    conn = sqlo.mem_conn(cache=bool(do_cache))
+    path = _scratch_db()
+    conn = sqlo.file_conn(path, cache=bool(do_cache))
+    other = sqlo.file_conn(path, cache=bool(do_cache))
+    for c in (conn, other):
+        c.query('PRAGMA synchronous=OFF')
     oname, pname = sqlo.uniq('C04TO'), sqlo.uniq('C04TP')
     O = type(oname, (SQLObject,), {'_connection': conn, '__module__': __name__, 'name': StringCol(alternateID=True),
                                    'pets': MultipleJoin(pname, joinColumn='owner_id')})
@@ -1072,15 +1078,17 @@ def tx_env(do_cache):
                                    'owner': ForeignKey(oname)})
     O.createTable()
     P.createTable()
-    e = {'conn': conn, 'O': O, 'P': P, 'n': [0]}
+    e = {'conn': conn, 'other': other, 'O': O, 'P': P, 'n': [0]}
     _tx_envs[do_cache] = e
     return e
 
 
 def execute_tx(do_cache, steps):
-    """steps: 'read-rollback' | 'empty-commit' | 'empty-rollback' | 'gc'.  Oracle: through a
-    transaction the application gets instances of the transaction's own identity map (bound to it, one per row);
-    on the main connection every access path keeps returning the held objects, before, between and after."""
+    """steps: 'read-rollback' | 'empty-commit' | 'empty-rollback' | 'second-connection' | 'gc'.  Oracle: on a
+    NON-DEFAULT connection (a transaction, a second connection object on the same database) every access path --
+    get, byName, eager select, lazyColumns select, foreign key, join -- hands out the instances of THAT connection's
+    identity map (bound to it, one per row, never the default connection's); on the default connection every access
+    path keeps returning the held objects, before, between and after."""
     e = tx_env(do_cache)
     O, P, conn = e['O'], e['P'], e['conn']
     e['n'][0] += 1
@@ -1093,26 +1101,48 @@ def execute_tx(do_cache, steps):
         def paths(tag):
             for what, f in (('get', lambda: O.get(oid) is owner), ('byName', lambda: O.byName(oname) is owner),
                             ('select', lambda: [x for x in O.select(O.q.id == oid)][0] is owner),
+                            ('lazyColumns select', lambda: [x for x in O.select(O.q.id == oid, lazyColumns=True)][0] is owner),
                             ('get pet', lambda: P.get(pid) is pet), ('foreign key', lambda: pet.owner is owner),
                             ('join', lambda: owner.pets[0] is pet)):
                 if not f():
                     fails.append('%s: %s does not return the held instance' % (tag, what))
+
+        def on_connection(c, tag):
+            t = O.get(oid, connection=c)
+            tp = P.get(pid, connection=c)
+            if t is owner or tp is pet:
+                fails.append("%s: get(connection=) hands out the default connection's instance" % tag)
+            if t._connection is not c or tp._connection is not c:
+                fails.append('%s: the instance fetched through the connection is not bound to it' % tag)
+            for what, f in (('byName(connection=)', lambda: O.byName(oname, connection=c)),
+                            ('select(connection=)', lambda: list(O.select(O.q.id == oid, connection=c))[0]),
+                            ('select(lazyColumns=True, connection=)',
+                             lambda: list(O.select(O.q.id == oid, lazyColumns=True, connection=c))[0]),
+                            ('foreign key of an instance of that connection', lambda: tp.owner)):
+                got = f()
+                if got is not t:
+                    fails.append("%s: %s yields %s, not the instance get(connection=) gives" % (
+                        tag, what, "the default connection's instance" if got is owner else 'another object'))
+            for what, f in (('select(lazyColumns=True, connection=) of the other class',
+                             lambda: list(P.select(P.q.id == pid, lazyColumns=True, connection=c))[0]),
+                            ('join of an instance of that connection', lambda: t.pets[0])):
+                got = f()
+                if got is not tp:
+                    fails.append("%s: %s yields %s, not the instance get(connection=) gives" % (
+                        tag, what, "the default connection's instance" if got is pet else 'another object'))
         paths('before')
         for st in steps:
             if st == 'gc':
                 gc.collect()
                 paths('after gc')
                 continue
+            if st == 'second-connection':
+                on_connection(e['other'], 'second connection')
+                paths('after second-connection')
+                continue
             trans = conn.transaction()
             if st.startswith('read'):
-                t = O.get(oid, connection=trans)
-                if t is owner:
-                    fails.append("get(connection=trans) hands out the main connection's instance")
-                if t._connection is not trans:
-                    fails.append('the instance fetched through the transaction is not bound to it')
-                if O.byName(oname, connection=trans) is not t:
-                    fails.append('byName(connection=trans) is not get(connection=trans)')
-                del t
+                on_connection(trans, 'transaction')
             if st.endswith('rollback'):
                 trans.rollback()
             else:
@@ -1125,7 +1155,7 @@ def execute_tx(do_cache, steps):
 
 
 # (a COMMITTED transaction that touched the row expires it in the parent's cache by design: the E1 class, C07/C08's subject)
-TX_STEPS = ('read-rollback', 'empty-commit', 'empty-rollback', 'gc')
+TX_STEPS = ('read-rollback', 'empty-commit', 'empty-rollback', 'second-connection', 'gc')
 
 
 def run_tx(ctx, reported):
@@ -1141,7 +1171,7 @@ def run_tx(ctx, reported):
                     small = (s,)
                     fails = execute_tx(do_cache, small)
                     break
-            key = 'C04:transaction:%s' % '-then-'.join(small)
+            key = 'C04:connection:%s:%s' % ('-then-'.join(small), fails[0].split(': ', 1)[-1].split(' yields')[0].split(' hands')[0][:60])
             if key not in reported:
                 reported.add(key)
                 ctx.oracle_fail(key, '%s (cache=%s, transaction steps %s)' % (fails[0], bool(do_cache), ' ; '.join(small)),
